@@ -283,8 +283,11 @@ func TestPropSegInit(t *testing.T) {
 			m.apply(segOp{Kind: "next", Iter: drawIter(rt), N: rapid.IntRange(1, 8).Draw(rt, "n")})
 		})
 		weighted(actions, "burst_init", 1, func(rt *rapid.T) {
-			text := drawMixedText(rt, ev.Scale(24, 80))
-			m.apply(segOp{Kind: "burst_init", Text: text, AltText: drawMixedText(rt, 8), N: drawBurstN(rt, len(text) <= 8)})
+			if rapid.IntRange(0, 2).Draw(rt, "doBurst") != 0 {
+				m.apply(segOp{Kind: "init", Text: drawMixedText(rt, ev.Scale(24, 80))})
+				return
+			}
+			m.apply(segOp{Kind: "burst_init", Text: drawMixedText(rt, 8), AltText: drawMixedText(rt, 8), N: drawBurstN(rt, ev.Thorough())})
 		})
 		weighted(actions, "restart", 1, func(rt *rapid.T) { m.apply(segOp{Kind: "restart", Iter: drawIter(rt)}) })
 		weighted(actions, "stale", 1, func(rt *rapid.T) { m.apply(segOp{Kind: "stale", N: rapid.IntRange(1, 4).Draw(rt, "n")}) })
